@@ -17,6 +17,7 @@
   `Float`; `|·|`, any value in `Proofs/`).  Core Lean only.
 -/
 import OpmVerif.Model.Grid
+import OpmVerif.Gen.GridTops
 
 namespace OpmVerif.GridTops
 
@@ -51,6 +52,20 @@ def topsEntry (abs : α → α) (tol : α) (area n0 : Nat) (dz inp : Nat → α)
 def createTOPS (abs : α → α) (tol : α) (d : Dims) (n0 : Nat) (dz inp : Nat → α) : Option (Nat → α) :=
   if n0 < d.nx * d.ny then none
   else some (topsEntry abs tol (d.nx * d.ny) n0 dz inp)
+
+/-- Corner `c` of cell `(i,j,k)` in the ZCORN of a `makeZcornDzTops` that reads the TOPS vector at
+every layer (`z = tops[i + j*nx + k*nx*ny]` at the top of the cell, `z + dz` at its bottom) — the
+code with `design.d/C13.tops-gap.patch`. -/
+def zcornCellFull (d : Dims) (dz tops : Nat → α) (i j k c : Nat) : α :=
+  if c < 4 then tops (i + j * d.nx + k * d.nx * d.ny)
+  else tops (i + j * d.nx + k * d.nx * d.ny) + dz (i + j * d.nx + k * d.nx * d.ny)
+
+/-- The ZCORN cell function of `makeZcornDzTops` as found in the working tree
+(`Gen/GridTops.lean`, regenerated on every run). -/
+def zcornCellOf (m : Gen.GridTops.TopsLayers) (d : Dims) (dz tops : Nat → α) : Nat → Nat → Nat → Nat → α :=
+  match m with
+  | .firstLayer => zcornCellDTops d dz tops
+  | .everyLayer => zcornCellFull d dz tops
 
 end Tops
 
